@@ -290,6 +290,44 @@ def _rxn_unsupported_member(rec, fmt, pick, empty=False):
     return rec, None
 
 
+def _bonds_sorted(rec, fmt):
+    """Bond block in the order most programs write it - by atom index - instead of chython's own (wedge bonds first).  The wedge
+    of a stereo centre is then no longer the first bond line of its atom."""
+    lines = rec.split('\n')
+    out, i = [], 0
+    while i < len(lines):
+        ln = lines[i]
+        if fmt in ('sdf', 'rdf') and ln.endswith('V2000') and len(ln) >= 39:
+            try:
+                na, nb = int(ln[0:3]), int(ln[3:6])
+            except ValueError:
+                out.append(ln)
+                i += 1
+                continue
+            out.extend(lines[i:i + 1 + na])
+            bl = lines[i + 1 + na:i + 1 + na + nb]
+            out.extend(sorted(bl, key=lambda x: (int(x[0:3]), int(x[3:6]))))
+            i += 1 + na + nb
+            continue
+        if fmt in ('esdf', 'erdf') and ln.startswith('M  V30 BEGIN BOND'):
+            out.append(ln)
+            j = i + 1
+            bl = []
+            while j < len(lines) and not lines[j].startswith('M  V30 END BOND'):
+                bl.append(lines[j].split(' '))      # M, '', V30, idx, type, a1, a2, ...
+                j += 1
+            if all(len(t) >= 7 and t[5].isdigit() and t[6].isdigit() for t in bl):
+                bl.sort(key=lambda t: (int(t[5]), int(t[6])))
+                for k, t in enumerate(bl, start=1):
+                    t[3] = str(k)
+            out.extend(' '.join(t) for t in bl)
+            i = j
+            continue
+        out.append(ln)
+        i += 1
+    return '\n'.join(out)
+
+
 def _v2000_props(rec, per_line):
     """Rewrite every V2000 molblock of a record the way most other programs write it: charges as `M  CHG` lines (atom block
     column zeroed) and the `M  CHG` / `M  ISO` / `M  RAD` entries grouped up to 8 per line."""
@@ -410,6 +448,8 @@ def apply_foreign(fmt, text, extents, spec):
             rec, k = _rxn_unsupported_member(rec, fmt, spec.get('member', 0), bool(spec.get('empty')))
             if k is not None:
                 spec.setdefault('_dropped', {})[len(new_ext)] = k
+        if kind == 'bonds_sorted' and fmt != 'mrv':
+            rec = _bonds_sorted(rec, fmt)
         if kind == 'v2000extras' and fmt in ('sdf', 'rdf'):
             rec = _v2000_extras(rec, spec.get('picks', [0]), spec.get('header', 0))
         pieces.append(rec)
@@ -836,6 +876,8 @@ def compare_views(exp, act):
                 v[role] = [dict(m) for m in v[role]]
         return v
     exp, act = strip(exp), strip(act)
+    if 'log' not in exp:
+        act.pop('log', None)
 
     def fix(e, a):
         if e.get('stereo', 0) is None:
@@ -980,6 +1022,11 @@ def _execute(trace, probes, scratch):
                     break
                 k -= len(e[role])
             probes['rxn_member_made_unsupported'] += 1
+    for e in expected:
+        if foreign:
+            e.pop('log', None)     # other programs' forms may legitimately make the parser note something
+        else:
+            e['log'] = False       # what chython wrote itself must be read without a complaint of the parser (an extra metadata key)
     ref = text.encode('utf-8')
     bext = _byte_extents(text, extents)      # the disk image is bytes; titles and metadata may hold non-ASCII text
     probes['records_written'] += len(records)
@@ -1484,14 +1531,14 @@ def generate(seed):
     trace['write'] = wp
     mode = cfg['mode']
     if mode in ('clean', 'indexed') and s.random() < (0.6 if mode == 'indexed' else 0.3):
-        k = s.choice((['empty_record'] * 4 if mode == 'indexed' else []) + ['v3000wrap', 'v3000wrap', 'no_final_delimiter', 'crlf', 'empty_record', 'empty_record', 'v2000props', 'v2000props', 'rireg', 'v2000extras', 'v2000extras', 'rxn_unsupported_member', 'rxn_unsupported_member', 'mixed_versions', 'mixed_versions'])
+        k = s.choice((['empty_record'] * 4 if mode == 'indexed' else []) + ['v3000wrap', 'v3000wrap', 'no_final_delimiter', 'crlf', 'empty_record', 'empty_record', 'v2000props', 'v2000props', 'rireg', 'v2000extras', 'v2000extras', 'rxn_unsupported_member', 'rxn_unsupported_member', 'mixed_versions', 'mixed_versions', 'bonds_sorted', 'bonds_sorted', 'bonds_sorted'])
         if fmt == 'mrv':
             k = 'mrv_compact'
         if (k == 'v3000wrap' and fmt in ('esdf', 'erdf')) or (k == 'empty_record' and fmt != 'mrv') or \
                 (k in ('v2000props', 'v2000extras') and fmt in ('sdf', 'rdf')) or (k in ('rireg', 'rxn_unsupported_member') and fmt in ('rdf', 'erdf')) or \
                 (k == 'mrv_compact' and fmt == 'mrv') or \
                 (k == 'no_final_delimiter' and fmt in ('sdf', 'esdf') and mode == 'clean') or \
-                (k == 'mixed_versions' and fmt != 'mrv') or \
+                (k in ('mixed_versions', 'bonds_sorted') and fmt != 'mrv') or \
                 (k == 'crlf' and fmt != 'mrv'):
             trace['foreign'] = {'kind': k, 'width': s.choice([20, 30, 40, 60, 78]), 'blank_first': s.random() < 0.5,
                                 'no_newline': s.random() < 0.5, 'after': s.randrange(8), 'per_line': s.choice([1, 2, 3, 8, 8])}
